@@ -20,8 +20,10 @@ def ensure_repo_dznpy():
 
 def parse_json_ast(json_bytes: bytes):
     ensure_repo_dznpy()
+    import contextlib
     from dznpy.json_ast import DznJsonAst
-    return DznJsonAst(json_bytes).process()
+    with contextlib.redirect_stdout(sys.stderr):   # the library prints 'skipping item ...' for declarations it ignores
+        return DznJsonAst(json_bytes).process()
 
 
 def build(cfgspec, fc, rebuild=False):
